@@ -161,7 +161,72 @@ def task_vars(t):
     return rep
 
 
-TASKS = dict(c=task, v=task_vars)
+def task_wide(t):
+    """Functions with small supports copied between WIDE managers (12 declared variables) whose
+    orders differ (reversed / interleaved): every 2- and 3-subset of the source levels."""
+    import itertools
+    _, nvars, k, tperm, si, ns, focus = t
+    rep = run.Report()
+    rec = sweep.Rec(rep)
+    src, decl = sweep.wide_manager(nvars, env.SEED)
+    if tperm == 'rev':
+        tseq = list(reversed(decl))
+    else:
+        tseq = decl[::2] + decl[1::2][::-1]
+    traw = S.new_bdd({v: i for i, v in enumerate(tseq)})
+    tgt = S.autoref_around(traw)
+    asrc = S.autoref_around(src)
+    mine = sweep.shard(sweep.wide_subsets(nvars, k), ns)[si]
+    for lv in mine:
+        names = tuple(decl[i] for i in lv)
+        U = Universe(names)
+        b = sweep.Builder(src, U)
+        den = O.Den(traw, U)
+        for fu in U.all_functions(names):
+            if focus is not None and sweep.norm([lv, fu]) != sweep.norm(focus):
+                continue
+            if len(U.support(fu)) < 2:
+                continue
+            case = dict(task=t[:-1] + ([list(lv), fu],), levels=list(lv), u=U.fmt(fu), target=tperm)
+            try:
+                u = b.verified(fu)
+                src.incref(u)
+                r1 = _bdd.copy_bdd(u, src, traw)
+                h = asrc._add_int(u)
+                r2 = asrc.copy(h, tgt)
+                r3 = _copy.copy_bdd(h, tgt)
+                rep.add('evaluations', 3)
+                rep.add('nontrivial', 3)
+                for how, r in (('bdd.copy_bdd', r1), ('autoref.BDD.copy', r2),
+                               ('_copy.copy_bdd', r3)):
+                    if den(r) != fu:
+                        rec('wide-wrong:' + how, '%s: the copy denotes another function (wide '
+                            'managers)' % how, case)
+                if not (r1 == r2.node == r3.node):
+                    rec('wide-noncanonical', 'copies of one function are different references '
+                        'in the target (wide managers)', case)
+                del h, r2, r3
+                r = how = None       # the loop variable still holds the last Function
+                src.decref(u)
+            except Violation as e:
+                rec('wide-broken:' + e.what, e.what, case, **e.detail)
+            except Exception as e:  # noqa
+                rec('wide-exception:' + type(e).__name__, 'raised %r' % (e,), case)
+        env.settle() if False else None
+        try:
+            O.check(traw, {}, None)
+        except Violation as e:
+            rec('wide-target:' + e.what, e.what, dict(task=t, levels=list(lv)), **e.detail)
+        traw.collect_garbage()
+        src.collect_garbage()
+        den.reset()
+    if si == 0 and focus is None and mine:
+        rep.sample(dict(kind='wide managers', declared=nvars, target_order=tperm,
+                        support_levels=list(mine[len(mine) // 2])))
+    return rep
+
+
+TASKS = dict(c=task, v=task_vars, w=task_wide)
 
 
 def dispatch(t):
@@ -170,6 +235,10 @@ def dispatch(t):
 
 def plan(tier):
     ts = [('v', 3, None), ('v', 4, None)]
+    for tperm in ('rev', 'weave'):
+        ts.append(('w', 12, 2, tperm, 0, 1, None))
+        for si in range(8):
+            ts.append(('w', 12, 3, tperm, si, 8, None))
     if tier == 'quick':
         for soi in range(6):
             for toi in range(6):
